@@ -90,7 +90,7 @@ class _SimplifyAlarm(Exception):
     pass
 
 
-def simplifies(node, budget=20000, seconds=30):
+def simplifies(node, budget=5000, seconds=8):
     '''True iff the simplifier terminates normally on this node (or nest of nodes).  Non-termination / rewrite cycles are C01's
     subject; the other IR checks skip such programs (counted) instead of hanging in a compile that simplifies internally.'''
     import signal
